@@ -470,14 +470,14 @@ def Engine.closeCurrent (e : Engine) : Engine × Res :=
       -- `?`: on error the function returns before `current_operation = None`
       if r.isOk then ({ e1 with current := none }, .ok) else (e1, r)
 
-/-- `apply_slow_start_initialization`; `none` = `unwrap()` on a pending id without operation -/
+/-- `apply_slow_start_initialization`; `none` = `unwrap()` on a pending id without operation.  Marks are only ever
+    added: an operation interrupted earlier stays marked until it is resolved. -/
 def Engine.slowStartInit (e : Engine) : Option Engine :=
   if !e.cfg.drainOneAtATime then some e
   else
-    let zeroed := e.ops.map (fun (id, o) => (id, { o with slowStart := 0 }))
     let pend := (e.pendingNonPub.map (·.2)) ++ (e.pendingPub.map (·.2))
-    if pend.all (fun id => (zeroed.lookup id).isSome) then
-      some { e with ops := zeroed.map (fun (id, o) => (id, if pend.contains id then { o with slowStart := 1 } else o)) }
+    if pend.all (fun id => (e.ops.lookup id).isSome) then
+      some { e with ops := e.ops.map (fun (id, o) => (id, if pend.contains id then { o with slowStart := 1 } else o)) }
     else none
 
 /-- `update_interrupted_retries`; a duplicate id in the two tables would be counted twice -/
